@@ -33,6 +33,9 @@ def holdsCStep (sp : Char → Bool) (i : Nat) (pre : Attrs) : CStep → P (List 
       ++ clause (tokens sp (classOf post) != kept) s!"{i}:remove_spec"
       ++ clause (noop && post != pre) s!"{i}:remove_noop"
       ++ clause (!noop && (kept.isEmpty != (alookup classKey post).isNone)) s!"{i}:remove_drops"
+      ++ clause (match alookup classKey post, alookup classKey pre with
+                 | some v', some v => v'.isHtml != v.isHtml
+                 | _, _ => false) s!"{i}:remove_keeps_mark"
       ++ clause (othersOf classKey post != othersOf classKey pre) s!"{i}:remove_others", post)
   | .ast v p => do
     let r ← next; let post ← listOf attr
